@@ -291,4 +291,212 @@ theorem details_refines_exact {s : Store} {L : Ledger} (hg : Good s L) (hn : NoC
     | none => rfl
     | some d => exact absurd hag (by simp [DetailsAgree])
 
+/-! ### `UnspentOutputs`, exactly -/
+
+/-- bbolt order of two `canonicalOutPoint` keys: hash (as a big-endian number), then output index -/
+def OutPoint.before (a b : OutPoint) : Prop := a.hash < b.hash ∨ (a.hash = b.hash ∧ a.index < b.index)
+
+theorem outPoint_lt_iff (a b : OutPoint) : KOrd.lt a b = true ↔ OutPoint.before a b := by
+  simp [KOrd.lt, OutPoint.before]
+
+theorem mapM_filterMap_forall {α β : Type} (f : α → M (Option β)) (P : β → Prop) :
+    ∀ (l : List α) (r : List (Option β)), l.mapM f = .ok r → (∀ a ∈ l, ∀ b, f a = .ok (some b) → P b) →
+      ∀ c ∈ r.filterMap id, P c := by
+  intro l
+  induction l with
+  | nil => intro r hm _ c hc; simp [List.mapM_nil, pure, Except.pure] at hm; subst hm; cases hc
+  | cons a t ih =>
+    intro r hm hf c hc
+    rw [List.mapM_cons] at hm
+    cases ha : f a with
+    | error x => rw [ha] at hm; cases hm
+    | ok b =>
+      rw [ha] at hm
+      cases ht : t.mapM f with
+      | error x => rw [ht] at hm; cases hm
+      | ok bs =>
+        rw [ht] at hm
+        simp only [bind, Except.bind, pure, Except.pure, Except.ok.injEq] at hm
+        subst hm
+        have iht := ih bs ht (fun x hx => hf x (List.mem_cons_of_mem _ hx))
+        cases b with
+        | none =>
+          simp only [List.filterMap_cons, id] at hc
+          exact iht c hc
+        | some x =>
+          simp only [List.filterMap_cons, id, List.mem_cons] at hc
+          rcases hc with rfl | hc
+          · exact hf a List.mem_cons_self _ ha
+          · exact iht c hc
+
+theorem fetchMinedCredit_some {s : Store} {now : Nat} {il isp : Bool} {e : OutPoint × Block} {c : Credit}
+    (h : fetchMinedCredit s now il isp true e = .ok (some c)) : c.op = e.1 ∧ c.block.isSome = true := by
+  obtain ⟨op, blk⟩ := e
+  unfold fetchMinedCredit at h
+  simp only [pure_eq, throw_eq] at h
+  split at h
+  · simp at h
+  · split at h
+    · simp at h
+    · split at h
+      · simp at h
+      · split at h
+        · simp at h
+        · simp only [if_true] at h
+          split at h
+          · simp at h
+          · simp only [Except.ok.injEq, Option.some.injEq] at h
+            subst h; exact ⟨rfl, rfl⟩
+
+theorem fetchUnminedCredit_some {s : Store} {now : Nat} {il isp : Bool} {e : OutPoint × UCredit} {c : Credit}
+    (h : fetchUnminedCredit s now il isp true e = .ok (some c)) : c.op = e.1 ∧ c.block = none := by
+  obtain ⟨op, uc⟩ := e
+  unfold fetchUnminedCredit at h
+  simp only [pure_eq, throw_eq] at h
+  split at h
+  · simp at h
+  · split at h
+    · simp at h
+    · split at h
+      · simp at h
+      · split at h
+        · simp at h
+        · simp only [if_true, Except.ok.injEq, Option.some.injEq] at h
+          subst h; exact ⟨rfl, rfl⟩
+
+/-- the shape of a `fetchCredits` answer (any store): the entries of the unspent index in cursor order, then those of the
+unconfirmed-credits bucket in cursor order (some skipped) -/
+theorem fetchCredits_shape {s : Store} {now : Nat} {il isp : Bool} {l : List Credit}
+    (h : fetchCredits s now il isp true = .ok l) :
+    ∃ a b, l = a ++ b ∧ (a.map (·.op)).Sublist (s.unspent.map (·.1)) ∧
+      (b.map (·.op)).Sublist (s.unminedCredits.map (·.1)) ∧
+      (∀ c ∈ a, c.block.isSome = true) ∧ (∀ c ∈ b, c.block = none) := by
+  unfold fetchCredits at h
+  obtain ⟨ra, ha, h⟩ := bind_eq_ok h
+  obtain ⟨rb, hb, h⟩ := bind_eq_ok h
+  simp only [pure_eq, Except.ok.injEq] at h
+  subst h
+  refine ⟨ra.filterMap id, rb.filterMap id, rfl, ?_, ?_, ?_, ?_⟩
+  · exact mapM_filterMap_sublist _ (fun c : Credit => c.op) (fun e : OutPoint × Block => e.1) _ _ ha
+      (fun e _ c hc => (fetchMinedCredit_some hc).1)
+  · exact mapM_filterMap_sublist _ (fun c : Credit => c.op) (fun e : OutPoint × UCredit => e.1) _ _ hb
+      (fun e _ c hc => (fetchUnminedCredit_some hc).1)
+  · exact mapM_filterMap_forall _ (fun c : Credit => c.block.isSome = true) _ _ ha
+      (fun e _ c hc => (fetchMinedCredit_some hc).2)
+  · exact mapM_filterMap_forall _ (fun c : Credit => c.block = none) _ _ hb
+      (fun e _ c hc => (fetchUnminedCredit_some hc).2)
+
+theorem sorted_keys_before {ν : Type} (m : KMap OutPoint ν) (hs : Sorted m) :
+    (m.map (·.1)).Pairwise OutPoint.before := by
+  rw [List.pairwise_map]
+  exact hs.imp (fun h => (outPoint_lt_iff _ _).mp h)
+
+/-- **`UnspentOutputs` = the ledger's spendable outputs, in cursor order**: first the confirmed ones in ascending
+outpoint order, then the unconfirmed ones in ascending outpoint order — which, with the permutation, determines the
+list -/
+theorem utxos_refines_exact {s : Store} {L : Ledger} (hg : Good s L) (hs : SortedS s) :
+    ∃ a b, unspentOutputs s L.now = .ok (a ++ b) ∧ (a ++ b).Perm (utxos L) ∧
+      (∀ c ∈ a, c.block.isSome = true) ∧ (∀ c ∈ b, c.block = none) ∧
+      (a.map (·.op)).Pairwise OutPoint.before ∧ (b.map (·.op)).Pairwise OutPoint.before := by
+  obtain ⟨l, h1, h2⟩ := utxos_refines hg
+  obtain ⟨a, b, rfl, ha, hb, hab, hbb⟩ := fetchCredits_shape (by unfold unspentOutputs at h1; exact h1)
+  exact ⟨a, b, h1, h2, hab, hbb, (sorted_keys_before _ hs.unspent).sublist ha,
+    (sorted_keys_before _ hs.unminedCredits).sublist hb⟩
+
+theorem fetchMinedCredit_op {s : Store} {now : Nat} {il isp full : Bool} {e : OutPoint × Block} {c : Credit}
+    (h : fetchMinedCredit s now il isp full e = .ok (some c)) : c.op = e.1 := by
+  obtain ⟨op, blk⟩ := e
+  unfold fetchMinedCredit at h
+  simp only [pure_eq, throw_eq] at h
+  split at h
+  · simp at h
+  · split at h
+    · simp at h
+    · split at h
+      · simp at h
+      · split at h
+        · simp at h
+        · split at h
+          · split at h
+            · simp at h
+            · simp only [Except.ok.injEq, Option.some.injEq] at h
+              subst h; rfl
+          · simp only [Except.ok.injEq, Option.some.injEq] at h
+            subst h; rfl
+
+theorem fetchUnminedCredit_op {s : Store} {now : Nat} {il isp full : Bool} {e : OutPoint × UCredit} {c : Credit}
+    (h : fetchUnminedCredit s now il isp full e = .ok (some c)) : c.op = e.1 := by
+  obtain ⟨op, uc⟩ := e
+  unfold fetchUnminedCredit at h
+  simp only [pure_eq, throw_eq] at h
+  split at h
+  · simp at h
+  · split at h
+    · simp at h
+    · split at h
+      · simp at h
+      · split at h
+        · simp at h
+        · split at h
+          · simp only [Except.ok.injEq, Option.some.injEq] at h
+            subst h; rfl
+          · simp only [Except.ok.injEq, Option.some.injEq] at h
+            subst h; rfl
+
+/-- the outpoints of a `fetchCredits` answer, whatever the flags: cursor order of the two buckets -/
+theorem fetchCredits_ops {s : Store} {now : Nat} {il isp full : Bool} {l : List Credit}
+    (h : fetchCredits s now il isp full = .ok l) :
+    ∃ a b, l = a ++ b ∧ (a.map (·.op)).Sublist (s.unspent.map (·.1)) ∧
+      (b.map (·.op)).Sublist (s.unminedCredits.map (·.1)) := by
+  unfold fetchCredits at h
+  obtain ⟨ra, ha, h⟩ := bind_eq_ok h
+  obtain ⟨rb, hb, h⟩ := bind_eq_ok h
+  simp only [pure_eq, Except.ok.injEq] at h
+  subst h
+  refine ⟨ra.filterMap id, rb.filterMap id, rfl, ?_, ?_⟩
+  · exact mapM_filterMap_sublist _ (fun c : Credit => c.op) (fun e : OutPoint × Block => e.1) _ _ ha
+      (fun e _ c hc => fetchMinedCredit_op hc)
+  · exact mapM_filterMap_sublist _ (fun c : Credit => c.op) (fun e : OutPoint × UCredit => e.1) _ _ hb
+      (fun e _ c hc => fetchUnminedCredit_op hc)
+
+/-- the unspent index holds outputs of confirmed transactions -/
+theorem unspent_key_inChain {s : Store} {L : Ledger} (hg : Good s L) {op : OutPoint} (h : op ∈ s.unspent.map (·.1)) :
+    inChain L op.hash = true := by
+  obtain ⟨⟨op', blk⟩, he, rfl⟩ := List.mem_map.mp h
+  have := (unspent_perm hg).mem_iff.mp he
+  unfold expUnspent at this
+  simp only [List.mem_filterMap] at this
+  obtain ⟨⟨k, cv⟩, hm, he'⟩ := this
+  simp only at he'
+  split at he'
+  · cases he'
+  · simp only [Option.some.injEq, Prod.mk.injEq] at he'
+    obtain ⟨rfl, _⟩ := he'
+    obtain ⟨t, b, ht, e1, _⟩ := mem_expCredits.mp hm
+    exact inChain_iff.mpr ⟨(t, b), ht, e1.symm⟩
+
+/-- the unconfirmed-credits bucket holds outputs of unconfirmed transactions -/
+theorem ucredit_key_inPool {s : Store} {L : Ledger} (hg : Good s L) {op : OutPoint}
+    (h : op ∈ s.unminedCredits.map (·.1)) : inPool L op.hash = true := by
+  obtain ⟨⟨op', uc⟩, he, rfl⟩ := List.mem_map.mp h
+  have := (unminedCredits_perm hg).mem_iff.mp he
+  obtain ⟨t, ht, e1, _⟩ := mem_expUnminedCredits.mp this
+  exact inPool_iff.mpr ⟨t, ht, e1.symm⟩
+
+/-- **`OutputsToWatch` = the ledger's watch set, in cursor order** (only the outpoints are meaningful): first the
+outputs of confirmed transactions in ascending outpoint order, then those of unconfirmed transactions in ascending
+outpoint order -/
+theorem watch_refines_exact {s : Store} {L : Ledger} (hg : Good s L) (hs : SortedS s) (now : Nat) :
+    ∃ a b, outputsToWatch s now = .ok (a ++ b) ∧ ((a ++ b).map (·.op)).Perm (watchSet L) ∧
+      (∀ c ∈ a, inChain L c.op.hash = true) ∧ (∀ c ∈ b, inPool L c.op.hash = true) ∧
+      (a.map (·.op)).Pairwise OutPoint.before ∧ (b.map (·.op)).Pairwise OutPoint.before := by
+  obtain ⟨l, h1, h2⟩ := watch_refines hg now
+  obtain ⟨a, b, rfl, ha, hb⟩ := fetchCredits_ops (by unfold outputsToWatch at h1; exact h1)
+  refine ⟨a, b, h1, h2, ?_, ?_, (sorted_keys_before _ hs.unspent).sublist ha,
+    (sorted_keys_before _ hs.unminedCredits).sublist hb⟩
+  · intro c hc
+    exact unspent_key_inChain hg (ha.subset (List.mem_map.mpr ⟨c, hc, rfl⟩))
+  · intro c hc
+    exact ucredit_key_inPool hg (hb.subset (List.mem_map.mpr ⟨c, hc, rfl⟩))
+
 end TxStore
